@@ -772,6 +772,18 @@ func (x *Exec) verifyFunc(fn *ssa.Function, ct *Contract) {
 			}
 		}
 	}
+	// address-taken locals: the name denotes the cell
+	for _, b := range fn.Blocks {
+		for _, in := range b.Instrs {
+			if d, ok := in.(*ssa.DebugRef); ok && d.IsAddr {
+				if obj := d.Object(); obj != nil {
+					if _, isAlloc := d.X.(*ssa.Alloc); isAlloc {
+						seen[obj.Name()] = map[ssa.Value]bool{d.X: true}
+					}
+				}
+			}
+		}
+	}
 	for name, vs := range seen {
 		if len(vs) == 1 {
 			for v := range vs {
@@ -1187,6 +1199,9 @@ func (x *Exec) loopEdge(p *Path, li *loopInfo, from *ssa.BasicBlock, phis []*ssa
 		check("preserved")
 		x.cur.nexits++
 		return false
+	}
+	if ls.Publish {
+		x.publishAll(p)
 	}
 	{
 		eenv := x.iterVars(p, x.loopVars(x.specEnv(p), phis, vals), li.head)
